@@ -81,6 +81,21 @@ func c06(r *ev.Run, pairMode bool) {
 		}
 		return obs, ""
 	})
+	{
+		var cs []c06Case
+		for i, sh := range usableShapes([]int{60}) {
+			x := sh
+			x.Hash, x.Digits = i%3, 4+i%7
+			x.Text = suiteTexts[i%len(suiteTexts)]
+			in := junk(x, admissible(x, i), i)
+			sec := ref.B32Encode(ocraKeys[i%len(ocraKeys)])
+			want := ref.OCRA(ocraKeys[i%len(ocraKeys)], x.ref(), in.ref())
+			wrong := []byte(want)
+			wrong[len(wrong)-1] = '0' + (wrong[len(wrong)-1]-'0'+1)%10
+			cs = append(cs, c06Case{"config", x, sec, in, want}, c06Case{"config", x, sec, in, string(wrong)}, c06Case{"config", x, sec, in, want + "0"})
+		}
+		afterWarmups(r, "ocra-validate-after-other-operations", cs, func(c c06Case) (string, string) { return ocraVal(c, pairMode) })
+	}
 	if ReplayOnly {
 		return
 	}
